@@ -68,7 +68,22 @@ class C19(Check):
         qs = []
         ops = []
         p_upd = rng.choice([0.3, 0.5, 0.7])
+        # a second live history of the same layout in the same process (what two models stepped alternately, or a kept
+        # history of a finished run next to the next run's, look like): its operations are interleaved with the first's
+        companion = rng.random() < 0.35
+        cfg['keep_results'] = rng.random() < 0.6
+        ts2 = None
         for _ in range(nops):
+            if companion and rng.random() < 0.25:
+                if ts2 is None:
+                    ts2 = [cfg['t0']]
+                    ops.append(['xnew', _vec(rng, shape, dtype)])
+                elif rng.random() < 0.6:
+                    ts2.append(ts2[-1] + rng.choice([1e-3, 0.1, rng.uniform(1e-3, 2.0)]))
+                    ops.append(['xu', ts2[-1], _vec(rng, shape, dtype)])
+                else:
+                    ops.append(['xq', rng.uniform(ts2[0] - 0.5, ts2[-1] + 0.5)])
+                continue
             if rng.random() < p_upd:
                 if stratum == 'S-dup-times' and len(ops) and ops[-1][0] == 'u' and rng.random() < 0.3:
                     ops.append(['u', ops[-1][1], copy.deepcopy(ops[-1][2]), False])   # identical duplicate
@@ -188,7 +203,20 @@ class C19(Check):
 
         scales = [None]   # per-component magnitude of the two neighbouring records (rounding scale)
 
-        def ref_query(t):
+        main = {'h': h, 't': ref_t, 'y': ref_y, 'name': 'history'}
+        comp = [None]
+        kept = []      # (returned array object itself, copy taken when it was returned, description)
+
+        def check_kept(opi, why):
+            for a, c, what in kept:
+                if not np.array_equal(a, c):
+                    viol.append({'law': 'L-result-stable', 'cls': 'silent', 'key': 'kept-result',
+                                 'detail': f'op {opi} ({why}): the array returned earlier by {what} now reads '
+                                           f'{np.asarray(a).reshape(-1).tolist()[:4]}, it was {np.asarray(c).reshape(-1).tolist()[:4]}'})
+                    return
+
+        def ref_query(t, S=None):
+            ref_t, ref_y = (S or main)['t'], (S or main)['y']
             if t <= ref_t[0]:
                 return ref_y[0], 'pre'
             if t >= ref_t[-1]:
@@ -200,10 +228,12 @@ class C19(Check):
             scales[0] = [max(1.0, abs(a), abs(b)) for a, b in zip(ref_y[i], ref_y[i + 1])]
             return [a + al * (b - a) for a, b in zip(ref_y[i], ref_y[i + 1])], 'interp'
 
-        def check_query(t, opi, why):
-            exp, kind = ref_query(t)
+        def check_query(t, opi, why, S=None):
+            S = S or main
+            exp, kind = ref_query(t, S)
             try:
-                got = np.asarray(h(t))
+                ret = S['h'](t)
+                got = np.asarray(ret)
             except Exception as e:
                 viol.append({'law': 'L-query', 'cls': 'loud', 'key': kind,
                              'detail': f'op {opi} ({why}): query({t!r}) raised {type(e).__name__}: {e}'})
@@ -217,21 +247,27 @@ class C19(Check):
                 bad = (a != b) if kind != 'interp' else (abs(a - b) > 4 * tol * scales[0][j])
                 if bad:
                     viol.append({'law': 'L-query', 'cls': 'silent', 'key': kind,
-                                 'detail': f'op {opi} ({why}): query({t!r}) = {g} expected {exp} '
-                                           f'(records={len(ref_t)}, cap={cfg["cap"]}, growths={growths[0]})'})
+                                 'detail': f'op {opi} ({why}): {S["name"]} query({t!r}) = {g} expected {exp} '
+                                           f'(records={len(S["t"])}, cap={cfg["cap"]}, growths={growths[0]})'})
                     break
+            else:
+                if cfg.get('keep_results') and isinstance(ret, np.ndarray) and len(kept) < 48 and why in ('query', 'companion-query'):
+                    kept.append((ret, np.array(ret, copy=True), f'{S["name"]} query({t!r}) at op {opi}'))
+                    bump(probes, 'kept_result')
             return kind
 
-        def sweep(opi, why):
-            for t in ref_t:
-                check_query(t, opi, why + ':records')
+        def sweep(opi, why, S=None):
+            S = S or main
+            for t in list(S['t']):
+                check_query(t, opi, why + ':records', S)
                 if viol:
                     return
-            for a, b in zip(ref_t, ref_t[1:]):
+            for a, b in zip(S['t'], S['t'][1:]):
                 if b > a:
-                    check_query(a + 0.5 * (b - a), opi, why + ':midpoints')
+                    check_query(a + 0.5 * (b - a), opi, why + ':midpoints', S)
                     if viol:
                         return
+            check_kept(opi, why)
 
         n_ok_upd = 0
         n_interp = 0
@@ -301,6 +337,42 @@ class C19(Check):
                         sweep(opi, 'after-growth')
                     else:
                         check_query(t, opi, 'post-update')
+                if kept and not viol:
+                    check_kept(opi, 'after-update')
+                if comp[0] is not None and not viol and len(comp[0]['t']) >= len(ref_t):
+                    check_query(comp[0]['t'][len(ref_t) - 1], opi, 'second-history:after-update-of-first:same-row', comp[0])
+            elif op[0] == 'xnew':
+                class H2(DDEHistory):
+                    _INITIAL_CAPACITY = cfg['cap']
+                comp[0] = {'h': H2(arr(op[1]), t0=cfg['t0'], max_steps=cfg['max_steps']), 't': [float(cfg['t0'])],
+                           'y': [stored(op[1])], 'name': 'second history'}
+                bump(probes, 'companion')
+                # constructing another history of the same layout changes nothing in the first
+                sweep(opi, 'after-second-history-was-built')
+            elif op[0] == 'xu':
+                C = comp[0]
+                if C is None or op[1] < C['t'][-1] or (bounded and len(C['t']) >= capacity):
+                    continue
+                try:
+                    C['h'].update(op[1], arr(op[2]))
+                except Exception as e:
+                    viol.append({'law': 'L-update', 'cls': 'loud', 'key': type(e).__name__,
+                                 'detail': f'op {opi}: second history update({op[1]!r}) raised {type(e).__name__}: {e}'})
+                    break
+                C['t'].append(float(op[1]))
+                C['y'].append(stored(op[2]))
+                bump(probes, 'companion_update')
+                # an update of one history is invisible in the other: same-numbered record, last record, end values
+                k_ = min(len(C['t']), len(ref_t)) - 1
+                check_query(ref_t[k_], opi, 'after-update-of-second-history:same-row')
+                if not viol:
+                    check_query(ref_t[-1], opi, 'after-update-of-second-history:last')
+                if not viol:
+                    check_query(C['t'][-1], opi, 'second-history:post-update', C)
+                check_kept(opi, 'after-update-of-second-history')
+            elif op[0] == 'xq':
+                if comp[0] is not None:
+                    check_query(op[1], opi, 'companion-query', comp[0])
             elif op[0] == 'ubad':
                 _, t, flat, how = op
                 if t < ref_t[-1] or (bounded and len(ref_t) >= capacity):
@@ -341,6 +413,8 @@ class C19(Check):
                         break
         if not viol:
             sweep(len(trace['ops']), 'final')
+        if not viol and comp[0] is not None:
+            sweep(len(trace['ops']), 'final', comp[0])
         nontrivial = n_ok_upd >= 2 and n_interp >= 1 and (bounded or cfg['cap'] >= 1024 or growths[0] >= 1)
         return {'violations': viol, 'probes': probes, 'faults': faults,
                 'faults_cfg': {'alloc': 1} if alloc else {},
